@@ -1,4 +1,5 @@
 import OxyModel.Proofs.Rebal.Range
+import OxyModel.Proofs.Rebal.Split
 
 /-!
 # C10 — the rebalancer shifts share only away from outliers and never starves a server
@@ -132,6 +133,19 @@ theorem C10_outlier_share_not_up (st : Bool) (bo : Nat) (nr : Bool) (hist : List
       (List.getElem?_eq_getElem hl) (List.getElem?_eq_getElem hl') hbad
     simpa [sumCur_eq, List.getD_eq_getElem?_getD, hl, hl'] using this
 
+/-- **C10 ("some server is rated an outlier" is a mixed marking)**: with non-negative ratings
+    (failure ratios, latencies) the zero sentinel / median guarantee that at least one server is
+    rated good, so whenever some server is rated an outlier the adjustment that runs is the marked
+    one to which `C10_outlier_share_not_up` and `C10_outlier_loses` apply — never `convergeWeights`. -/
+theorem C10_outlier_means_mixed (r : Reb) (hnn : ∀ p ∈ r.servers, 0 ≤ p.rating) (i : Nat)
+    (hbad : r.marks.1[i]? = some false) : r.marks.2 = true := by
+  have hnn' : ∀ v ∈ r.servers.map (·.rating), 0 ≤ v := by
+    intro v hv
+    obtain ⟨p, hp, rfl⟩ := List.mem_map.mp hv
+    exact hnn p hp
+  unfold Reb.marks at hbad ⊢
+  exact markServers_mixed _ hnn' i hbad
+
 /-- **C10 (membership / configured-weight change restores the configured weights)**: right after a
     successful add, update or remove every effective weight equals the configured one, and the timer
     is already expired (`now − 1s`), so the next request may adjust again. -/
@@ -239,6 +253,7 @@ private def hist0 : List Op :=
 -- a mixed marking: `b` is the outlier; the request's adjustment lifts the good servers ×4
 example : (reach false 1000 true hist0).reb.marks = ([true, false, true], true) := by decide +kernel
 example : ((reach false 1000 true hist0).step (.serve none none)).1.bal.ws = [4, 1, 12] := by decide +kernel
+example : ∀ p ∈ (reach false 1000 true hist0).reb.servers, 0 ≤ p.rating := by decide +kernel
 -- hypotheses of `C10_outlier_loses` hold there
 example : 2 ≤ (reach false 1000 true hist0).reb.servers.length ∧ (reach false 1000 true hist0).reb.metricsReady = true ∧
     (reach false 1000 true hist0).reb.timer < ((reach false 1000 true hist0).now : Int) := by decide +kernel
